@@ -170,12 +170,86 @@ def build_expr(terms, const):
     return e
 
 
-def canon_nodes(pb):
-    """structural name of every node of the store: independent of the position it was given"""
-    names = {0: "F", 1: "T"}
-    for i, x in enumerate(pb.memory[2:], start=2):
-        names[i] = hashlib.sha1(f"{x[0]}|{names[x[1]]}|{names[x[2]]}".encode()).hexdigest()[:16]
-    return names
+class canon_nodes:
+    """structural name of a node of the store: independent of the position it was given (computed on demand: the
+    store may hold millions of nodes of which a probe uses a handful)"""
+    def __init__(self, pb):
+        self.mem = pb.memory
+        self.names = {0: "F", 1: "T"}
+
+    def get(self, i, default="?"):
+        if i in self.names:
+            return self.names[i]
+        try:
+            x = self.mem[i]
+            if not (isinstance(i, int) and i >= 2 and isinstance(x, tuple) and len(x) == 3 and
+                    0 <= x[1] < i and 0 <= x[2] < i):
+                return default
+        except (IndexError, TypeError):
+            return default
+        n = hashlib.sha1(f"{x[0]}|{self.get(x[1])}|{self.get(x[2])}".encode()).hexdigest()[:16]
+        self.names[i] = n
+        return n
+
+
+BIG_STORE = 600        # above this many nodes the store itself is not reported nor handed to the model (whose
+                       # evaluation by vm_compute takes 3 s at 500 nodes, 11 s at 1000, 60 s at 2000)
+
+
+def user_projection(sm, users):
+    """which assignments of the user variables extend to a model of the manager's clauses (PySAT, a solver of our own)"""
+    import itertools
+    from pysat.solvers import Solver
+    tt = {}
+    cnf = []
+    for c in sm.clauses:
+        cnf.append([(1 if l.s else -1) * tt.setdefault(l.v, len(tt) + 1) for l in c])
+    ids = [tt.setdefault(PRE + v, len(tt) + 1) for v in users]
+    rows = []
+    with Solver(bootstrap_with=cnf) as s:
+        for bits in itertools.product([False, True], repeat=len(users)):
+            rows.append([list(bits), bool(s.solve(assumptions=[i if b else -i for i, b in zip(ids, bits)]))])
+    return rows
+
+
+def op_satgrow(op):
+    """grow the process-wide diagram store by about op['nodes'] nodes: many small inequalities over fresh variables
+    (the cheapest way, see harness/props/c07.py), the first of every 200 codified by a throw-away manager"""
+    import random
+    from tools.rect import pseudobool as pb
+    from tools.rect.pseudobool import Expr, Literal, Term
+    from tools.rect.satmanager import SATManager
+    r = random.Random(op["pyseed"])
+    made, last, k, shrank = 0, len(pb.memory), 0, 0
+    tm = None
+    while made < op["nodes"] and k < op["nodes"]:
+        n = r.choice([6, 8, 8, 10, 12])
+        e = Expr()
+        if r.random() < 0.7:
+            for i in range(n):
+                e = e + Literal(f"{op['tag']}{k}_{i}", r.random() < 0.8)
+            q = e >= n // 2
+        else:
+            tot = 0
+            for i in range(n):
+                c = r.choice([1, 2, 3, 5])
+                tot += c
+                e = e + Term(Literal(f"{op['tag']}{k}_{i}"), c)
+            q = e >= tot // 2
+        if k % 200 < 4:
+            if k % 200 == 0:
+                tm = SATManager()
+            tm.pseudoboolencoding(q, r.random() < 0.1)
+        else:
+            q.getrobdd(r.random() < 0.1)
+        now = len(pb.memory)
+        if now < last:
+            shrank += 1
+        else:
+            made += now - last
+        last = now
+        k += 1
+    return {"inequalities": k, "made": made, "shrank": shrank}
 
 
 def op_sat(op):
@@ -183,7 +257,9 @@ def op_sat(op):
     from tools.rect.pseudobool import Literal, Ineq
     from tools.rect.satmanager import SATManager
     opstr = {"GE": ">=", "LE": "<=", "GT": ">", "LT": "<", "EQ": "=", "EQ2": "=="}
-    mem0 = [[str(x[0]), int(x[1]), int(x[2])] for x in pb.memory[2:]]
+    big = len(pb.memory) > BIG_STORE
+    mem0 = [] if big else [[str(x[0]), int(x[1]), int(x[2])] for x in pb.memory[2:]]
+    memlen0 = len(pb.memory)
     head_ok = list(pb.memory[:2]) == [0, 1]
     sm = SATManager()
     status, norms = [], []
@@ -219,12 +295,13 @@ def op_sat(op):
     def cn(v):
         m = re.fullmatch(r"robdd_(\d+)", v)
         return "robdd:" + names.get(int(m.group(1)), "?") if m else v
-    raw = {"mem0": mem0, "newmem": [[str(x[0]), int(x[1]), int(x[2])] for x in pb.memory[2 + len(mem0):]],
+    raw = {"mem0": mem0, "newmem": [[str(x[0]), int(x[1]), int(x[2])] for x in pb.memory[memlen0:]], "big": big,
+           "memlen0": memlen0,
            "clauses": [[[l.v, bool(l.s)] for l in c] for c in sm.clauses], "aux": sm.auxcount,
            "codified": [int(i) for i in sm.codified], "vtable": list(sm.vtable[1:]), "status": status,
            "norms": norms, "head_ok": head_ok,
            "mmap_ok": len(pb.mmap) == len(pb.memory) - 2 and
-           all(pb.mmap.get(n) == i + 2 for i, n in enumerate(pb.memory[2:]))}
+           (big or all(pb.mmap.get(n) == i + 2 for i, n in enumerate(pb.memory[2:])))}
     # what the user of the manager can observe, node ids renamed canonically
     view = {"clauses": [[[cn(l.v), bool(l.s)] for l in c] for c in sm.clauses], "aux": sm.auxcount,
             "vtable": [cn(v) for v in sm.vtable[1:]], "status": status,
@@ -233,6 +310,11 @@ def op_sat(op):
     if op.get("solve"):
         res = bool(sm.solve())
         view["solve"] = res
+    users = sorted({p["v"] for p in op["posts"] if p["k"] == "newvar"})
+    if len(users) <= 10:
+        # the meaning of the encoding for its user: the projection of the CNF on the registered variables
+        view["ext"] = raw["ext"] = user_projection(sm, users)
+        raw["users"] = users
     return {"view": view, "_raw": raw}
 
 
@@ -336,7 +418,7 @@ def op_defaults(op):
     return {"steps": out}
 
 
-OPS = {"netlist": op_netlist, "die": op_die, "alloc": op_alloc, "stog": op_stog, "sat": op_sat,
+OPS = {"netlist": op_netlist, "die": op_die, "alloc": op_alloc, "stog": op_stog, "sat": op_sat, "satgrow": op_satgrow,
        "legal": op_legal, "strop": op_strop, "defaults": op_defaults}
 
 
